@@ -38,6 +38,8 @@ mod message;
 mod rtt;
 mod st_cred_mech;
 mod timeout;
+#[cfg(feature = "verif")]
+pub mod verif;
 
 pub use crate::client::RttConfig;
 pub use crate::client::StunClient;
